@@ -139,7 +139,7 @@ func sortedKeys(m map[int]int) []int {
 func catch(f func()) (p string) {
 	defer func() {
 		if r := recover(); r != nil {
-			p = fmt.Sprint(r)
+			p = "panic: " + fmt.Sprint(r) // pterm's Fatal panics with "": never report that as "no panic"
 		}
 	}()
 	f()
